@@ -101,6 +101,9 @@ fn tree_case(rep: &mut Report, r: &mut Rng, initial_if: bool, maxdepth: u32, max
         x86_64::verif_hooks::RFLAGS_IF_OVERLAY.store(0, Ordering::Relaxed);
     }
     regs.set_if(initial_if);
+    // the rest of RFLAGS is part of the initial state too: VIF/VIP/AC/ID/IOPL/NT as any kernel context may have them
+    let other: u64 = if step_mode && r.chance(2, 3) { r.next() & ((1 << 19) | (1 << 20) | (1 << 18) | (1 << 21) | (3 << 12) | (1 << 14)) } else { 0 };
+    regs.pushfq_or = other;
     let mut o = Obs { bodies_run: 0, saw_if_set_inside: 0, are_enabled_wrong_inside: 0, flag_not_restored: 0, result_wrong: 0, nodes: 0, max_depth: 0 };
     let (_, evs_all) = trapemu::trapped(|| {
         if step_mode {
@@ -113,11 +116,12 @@ fn tree_case(rep: &mut Report, r: &mut Rng, initial_if: bool, maxdepth: u32, max
         }
         v
     });
+    trapemu::regs().pushfq_or = 0;
     let pushfqs = evs_all.iter().filter(|e| e.kind == K::Pushfq).count();
     PUSHFQS.fetch_add(pushfqs as u64, Ordering::Relaxed);
     let evs: Vec<Event> = evs_all.into_iter().filter(|e| e.kind != K::Pushfq).collect();
     let after = trapemu::regs().iflag;
-    let ctx = |evs: &[Event]| J::obj(vec![("initial_if", J::Bool(initial_if)), ("nodes", J::U(nodes)), ("depth", J::U(o.max_depth as u64)), ("final_if", J::Bool(after)), ("events", evs_json(evs)), ("n_events", J::U(evs.len() as u64))]);
+    let ctx = |evs: &[Event]| J::obj(vec![("initial_if", J::Bool(initial_if)), ("other_rflags_bits", J::hex(other)), ("nodes", J::U(nodes)), ("depth", J::U(o.max_depth as u64)), ("final_if", J::Bool(after)), ("events", evs_json(evs)), ("n_events", J::U(evs.len() as u64))]);
     let ifs = match (initial_if, step_mode) {
         (true, false) => "IF=1",
         (false, false) => "IF=0",
@@ -147,6 +151,9 @@ fn tree_case(rep: &mut Report, r: &mut Rng, initial_if: bool, maxdepth: u32, max
     let ok = if initial_if { kinds == vec![K::Cli, K::Sti] } else { kinds.is_empty() };
     if !ok {
         rep.violation(&format!("without_interrupts|{}|unexpected-instruction-sequence", ifs), ctx(&evs));
+    }
+    if step_mode {
+        rep.class(&format!("tree|{}|VIF={}|other-bits={}", ifs, (other >> 19) & 1, if other & !(1 << 19) != 0 { "some" } else { "none" }));
     }
     rep.class(&format!("tree|{}|depth={}|nodes={}", ifs, o.max_depth, match nodes { 1 => "1", 2..=4 => "2-4", 5..=20 => "5-20", _ => "21+" }));
     if rep.want_sample() {
